@@ -196,12 +196,17 @@ let () =
         let nsteps = next_int () in
         let db = ref { d_journal = []; d_tbl = [] } in
         for i = 0 to nsteps - 1 do
-          let mode = mode_of (next ()) in
+          let mtok = next () in
+          let (mode, ord) = match String.split_on_char '/' mtok with
+            | [m] -> (mode_of m, Linear)
+            | [m; "linear-skip"] -> (mode_of m, LinearSkip)
+            | [m; "non-linear"] -> (mode_of m, NonLinear)
+            | _ -> failwith ("mode " ^ mtok) in
           let n = next_int () in
           let crash = next () in
           let k = next_int () in
           let dir = parse_dir () in
-          let ((o, d'), tr) = apply_run heq hs mode (nat_of_int n) dir !db in
+          let ((o, d'), tr) = apply_run_ord heq hs ord mode (nat_of_int n) dir !db in
           let normal () =
             let ex = match o with
               | ADone -> "ok" | APend PNoPending -> "ok" | AFail _ -> "fail" | ADirective -> "fail" | APend _ -> "fail" in
